@@ -5,6 +5,7 @@ use std::sync::atomic::{AtomicBool, AtomicUsize, Ordering};
 use std::sync::{Arc, Mutex, MutexGuard, RwLock};
 
 use crate::disk_store::*;
+use crate::errors::QueryError;
 use crate::ingest::buffer::Buffer;
 use crate::mem_store::*;
 use crate::observability::QueryPerfCounter;
@@ -131,7 +132,7 @@ impl Partition {
         referenced_cols: &HashSet<String>,
         drs: &DiskReadScheduler,
         perf_counter: &QueryPerfCounter,
-    ) -> HashMap<String, Arc<dyn DataSource>> {
+    ) -> Result<HashMap<String, Arc<dyn DataSource>>, QueryError> {
         let mut columns = HashMap::<String, Arc<dyn DataSource>>::new();
         for colname in referenced_cols {
             let cols = self.cols.read().unwrap();
@@ -153,11 +154,11 @@ impl Partition {
             };
             let handle = cols.get(colname).unwrap().clone();
             drop(cols);
-            if let Some(column) = drs.get_or_load(&handle, &self.cols, perf_counter) {
+            if let Some(column) = drs.get_or_load(&handle, &self.cols, perf_counter)? {
                 columns.insert(handle.name().to_string(), Arc::new(column));
             }
         }
-        columns
+        Ok(columns)
     }
 
     pub fn restore(&self, col: &Arc<Column>) {
